@@ -859,7 +859,7 @@ pub fn print_human_trace(file: &ReplayFile, outcome: &Outcome, sim: &Arc<Sim>) {
     }
     let trace = sim.take_trace();
     let shown = trace.len().min(400);
-    println!("---- schedule (last {shown} of {} steps): step thread site", trace.len());
+    println!("---- schedule (last {shown} of {} steps): step, thread that runs next, scheduling point it continues from", trace.len());
     for t in &trace[trace.len() - shown..] {
         println!("{:>7} t{} {:<12} {}", t.step, t.thread, t.name, t.site);
     }
